@@ -284,9 +284,11 @@ def run(ctx):
                         # the edit itself, the way an editor performs it: both ends of the selection lie inside the node's
                         # content, the block range is the library's own answer for them, the lift follows its lift_target —
                         # literally: nothing up to and including the node's opening and from its closing on may change
-                        # (a collapsed selection directly in the node's content has, by the documented rule, the node itself as
-                        # its block range: that is a range around the node, not inside it, and is left out)
-                        if stl2 == "ok" and tgt2 is not None and (f_ < t_ or d.resolve(f_).depth > depth):
+                        # (a selection directly in the node's content that is collapsed — or any selection directly in an isolating
+                        # node with inline content — has, by the documented rule, the node itself as its block range: a range around
+                        # the node, not inside it; left out.  The condition is the hypothesis of `blockRange_inside_isolating`.)
+                        if stl2 == "ok" and tgt2 is not None and \
+                                d.resolve(f_).depth - (1 if (d.resolve(f_).parent.inline_content or f_ == t_) else 0) >= depth:
                             old_l = doc_tokens(d)
                             trl = Transform(d)
                             stL, valL, _ = ops.run_op(trl, lambda tr_: tr_.lift(br2[1], tgt2))
